@@ -53,7 +53,8 @@ LabOf(e) == [p |-> e.proc, ev |-> e.ev, kind |-> e.kind, verb |-> e.verb, id |->
 NoU == [kind |-> "none", chart |-> "none", replace |-> FALSE, atomic |-> FALSE, cleanup |-> FALSE,
         keep |-> FALSE, nohooks |-> FALSE, lim |-> 0, ver |-> 0, dry |-> FALSE, takeown |-> FALSE,
         clientOnly |-> FALSE]
-NoSum == [u |-> NoU, ok |-> FALSE, crs |-> {}, flt |-> {}, posted |-> {}, log |-> <<>>, active |-> FALSE]
+NoSum == [u |-> NoU, ok |-> FALSE, crs |-> {}, flt |-> {}, posted |-> {}, log |-> <<>>, active |-> FALSE,
+          sub |-> FALSE, fsub |-> FALSE]
 NoState == [store |-> [r \in MonRev |-> NoRecM], cluster |-> [o \in AllIds |-> AbsentM]]
 
 (* ----- the monitor's only behaviour: consume the trace -------------------- *)
@@ -90,6 +91,8 @@ MonNext ==
                               !.flt = IF e.inj THEN @ \cup {FaultClass(e)} ELSE @,
                               !.posted = IF e.kind = "res" /\ e.verb = "POST" /\ e.ok /\ e.id \in ManIdsOf(sum[p].u)
                                          THEN @ \cup {e.id} ELSE @,
+                              !.sub = @ \/ (e.kind = "store" /\ e.verb = "query" /\ e.id = "history" /\ sum[p].crs # {}),
+                              !.fsub = @ \/ (e.inj /\ e.kind # "store" /\ sum[p].sub),
                               !.log = Append(@, LabOf(e))]]
                /\ UNCHANGED pre /\ ended' = 0 /\ esum' = NoSum
           [] e.ev = "end" ->
